@@ -810,7 +810,7 @@ def gen_ret(rng, recv_mut, consuming, allow_child=True):
         if k < 0.70:
             return ROpt(rng.choice(_opt_inner()))
         if k < 0.80:
-            return RRes(rng.choice(["u8", "u64", "Pod1"]), rng.choice(["u8", "i32", "bool"]))
+            return RRes(rng.choice(["u8", "u64", "Pod1"]), rng.choice(["u8", "i32", "bool", "LErr"]))
         if k < 0.90:
             return RIntRes(rng.choice(["u64", "u8", "Pod1", "()", "()", "()"]), rng.choice(["io", "unit", "UErr"]), rng.random() < 0.3)
         return RChild("owned", rng.random() < 0.4) if allow_child else RVal("u64")
@@ -827,7 +827,7 @@ def gen_ret(rng, recv_mut, consuming, allow_child=True):
     if k < 0.66:
         return ROpt(rng.choice(_opt_inner()))
     if k < 0.74:
-        return RRes(rng.choice(["u8", "u64", "Pod1", "i32"]), rng.choice(["u8", "i32", "u64", "bool"]))
+        return RRes(rng.choice(["u8", "u64", "Pod1", "i32"]), rng.choice(["u8", "i32", "u64", "bool", "LErr", "LErr"]))
     if k < 0.84:
         return RIntRes(rng.choice(["u64", "u8", "Pod1", "()", "()", "()", "i16"]), rng.choice(["io", "unit", "UErr"]), rng.random() < 0.3)
     if not allow_child:
@@ -1097,6 +1097,13 @@ def gen_trait(rng, name, prefix, max_methods=5, allow_child=True, tindex=0):
         if ret.int_result is False and int_result:
             m.attrs.append("#[no_int_result]")
         methods.append(m)
+    # a plain Result (with an error whose integer coding would be lossy) declared AFTER a method that
+    # carries its own #[int_result]: method-level attributes must not leak to later methods
+    if not int_result and any(getattr(m.ret, "int_result", None) is True for m in methods) and rng.random() < 0.6:
+        j = len(methods)
+        pm = Method(j, f"{prefix}_{j}", "ref", [AVal(0, "u32")], RRes("u64", "LErr"))
+        pm.gid = tindex * 100 + j
+        methods.append(pm)
     t = Trait(name, methods, int_result)
     if supers and any(getattr(m.ret, "borrowed", False) and getattr(m.ret, "wrapped", False) for m in methods):
         # the wrapper keeps borrowed wrapped returns in a Cell inside the container, which is never
